@@ -51,3 +51,42 @@ func c14R5(c *Ctx) {
 func c16R4(c *Ctx) {
 	shareRule(c, "C02.R2", "C16.R4", c02R2, "the dependency loops connect every element and never return early with success: whether a connection already exists depends on the order in which sibling map keys were walked, so an early exit makes the graph depend on map iteration order")
 }
+
+// C08: an element the typing walkers skip is not type-checked against the schema it feeds.
+func c08R7(c *Ctx) {
+	shareRule(c, "C02.R7", "C08.R7", c02R7, "the expression-tree walkers — the typing ones (createTypeStructure, infer.Type) in particular — descend into every element of maps and lists or fail: an element that is skipped is never compared with the property it feeds, so an ill-typed workflow is accepted and fails at run time with a `bug:` error")
+}
+
+// shareTraceRule re-runs the typestate rules over the explored step traces and keeps only one of them under a new id.
+func shareTraceRule(c *Ctx, from, to, text string) {
+	n0 := len(c.Obligations)
+	e0 := len(c.explanation)
+	c12Traces(c)
+	c.explanation = c.explanation[:e0]
+	c.explain(to + " = " + from + " " + text)
+	kept := c.Obligations[:n0]
+	for _, o := range c.Obligations[n0:] {
+		if o.Rule == from {
+			o.Rule = to
+			kept = append(kept, o)
+		}
+	}
+	c.Obligations = kept
+}
+
+// C03: a step that is closed while it still waits for a stage's input must report that stage impossible, not done:
+// reporting it done resolves a DAG node that is (or becomes) unresolvable — the run then fails or panics although a
+// declared output was producible.
+func c03R8(c *Ctx) {
+	shareTraceRule(c, "C12.R12", "C03.R8", "on every explored path of a step goroutine a stage with an engine-provided input is reported finished only after that input was received (a closed step reports the stage impossible instead): otherwise the run loop resolves a stage node whose dependencies never resolved and the run ends in an error or a panic although a declared output was producible")
+}
+
+// C02: `starting.started` is data other steps wait for: it must not be published before the plugin was launched.
+func c02R9(c *Ctx) {
+	shareTraceRule(c, "C12.R13", "C02.R9", "on every explored path the plugin step reports entering `running` (which publishes the output starting.started) only after the goroutine that executes the plugin was launched: a step that waits for `started` never runs on an output that was not actually produced")
+}
+
+// C02: a value cached in the prepared (shared) step objects in one run would replace the value evaluated for another run.
+func c02R8(c *Ctx) {
+	shareRule(c, "C14.R1", "C02.R8", c14R1, "the run path writes nothing into the prepared workflow or the prepared step objects shared by all runs: a deploy configuration (or any other evaluated input) cached there by one run would be used by the next run instead of the value the engine evaluated for it")
+}
